@@ -138,6 +138,30 @@ theorem punishProposal_ok {s s' : St} {au : Bool} {a : Addr} {rw : Option Addr}
   | false => simp at e
   | true => exact ⟨rfl, by simpa using e⟩
 
+-- ---------------------------------------------------------------- ownership transfer
+
+/-- an accepted `MsgTransferOwnership`: signed by the current owner, to a different, non-blocked address;
+    only the `owner` field of that one rollapp record changes -/
+theorem transferOwner_ok {s s' : St} {sg : Addr} {ra : Nat} {no : Addr}
+    (e : transferOwner s sg ra no = .ok s') :
+    ∃ r, getRa s ra = some r ∧ r.owner = sg ∧ r.owner ≠ no ∧ blockedAddr no = false ∧
+      s' = setRa s { r with owner := no } := by
+  unfold transferOwner at e
+  split at e
+  · cases e
+  · rename_i r hg
+    split at e
+    · cases e
+    · rename_i h1
+      split at e
+      · cases e
+      · rename_i h2
+        split at e
+        · cases e
+        · rename_i h3
+          injection e with e
+          refine ⟨r, hg, by simpa using h1, by simpa using h2, by simpa using h3, e.symm⟩
+
 /-- `Q` only looks at the `states` field -/
 def StatesOnly (Q : Rollapp → Prop) : Prop := ∀ r r' : Rollapp, r'.states = r.states → Q r → Q r'
 
